@@ -569,25 +569,69 @@ class Tie:
             ps.add(self.rng.randint(0, max(n, 1)))
         return sorted(ps)
 
+    def reads_ctext(self, s):
+        ctext = ["# case %s" % s["id"], "content_file %s" % s["xpath"], "archive_file %s" % s["apath"],
+                 "open %s %s" % (s["mode"], self.path(s["id"] + ".f") if s["mode"] == "file" else ""),
+                 "table", "entries", "o2f " + " ".join(str(p) for p in s["o2f"])]
+        for r in s["reads"]:
+            ctext.append("%s %d %d" % r)
+        ctext.append("close")
+        return ctext
+
+    def run_reads_c(self, specs):
+        """Runs the read histories on the real code.  A call that does not return (or crashes the process) is reported with
+        the history that leads to it; the archives after it are re-run in a fresh process.  Returns {id: lines}."""
+        ctx = self.ctx
+        todo, cs, strikes = list(specs), {}, 0
+        tmo = 90 if ctx.quick else 600
+        while todo:
+            ctext = []
+            for s in todo:
+                ctext += self.reads_ctext(s)
+            rc, clines, cerr = self.run_c("\n".join(ctext) + "\n", timeout=tmo, linebuf=True)
+            sec = self.sections(clines)
+            if rc == 0:
+                cs.update(sec)
+                break
+            last = [l for l in clines if l.startswith("# case ")]
+            bad = next((s for s in todo if last and s["id"] == last[-1].split()[2]), todo[0])
+            done = sec.get(bad["id"], [])
+            nrd = sum(1 for l in done if l.split()[0] in ("r", "rf"))
+            stage_done = any(l.startswith("o2f") for l in done)
+            how = ("does not return (no result within %d s for the whole batch)" % tmo) if rc == 124 else \
+                  "crashes the process (rc=%d): %s" % (rc, (cerr.strip().split("\n") or ["?"])[-1][:200])
+            if stage_done and nrd < len(bad["reads"]):
+                rd = bad["reads"][nrd]
+                what = "%s(%d, %d) after %d earlier calls on a %d-byte content in %d frames (%s access, checksum %d) %s; previous call: %s" % (
+                    "ZSTD_seekable_decompress" if rd[0] == "r" else "ZSTD_seekable_decompressFrame", rd[1], rd[2], nrd, len(bad["x"]),
+                    len(bad["log"]), bad["mode"], bad["cf"], how, (done[-1][:160] if done else "-"))
+                self.report(self.read_replay(bad, upto=nrd, extra=dict(failing_call=list(rd), rc=rc)), what)
+            else:
+                self.report(self.read_replay(bad, upto=0, extra=dict(rc=rc, completed_lines=done[-3:])),
+                            "opening / querying the seek table of an archive the seekable compressor wrote (%s access, %d frames) %s; last completed: %s"
+                            % (bad["mode"], len(bad["log"]), how, (done[-1][:160] if done else "-")))
+            bad["dead"] = True
+            i = todo.index(bad)
+            for s in todo[:i]:
+                cs[s["id"]] = sec.get(s["id"], [])
+            todo = todo[i + 1:]
+            strikes += 1
+            if strikes >= 2 and todo:
+                core.log("C20: %d archives not read after two hangs/crashes" % len(todo))
+                for s in todo:
+                    s["dead"] = True
+                break
+        return cs
+
     def phase_reads(self, specs):
         ctx, rng = self.ctx, self.rng
         modes = ["mem", "file", "cb"]
-        ctext = []
         for j, s in enumerate(specs):
             s["mode"] = modes[j % 3] if len(s["x"]) > 9 else rng.choice(modes)
             s["reads"] = self.gen_reads(s)
             s["o2f"] = self.o2f_positions(s)
-            ctext += ["# case %s" % s["id"], "content_file %s" % s["xpath"], "archive_file %s" % s["apath"],
-                      "open %s %s" % (s["mode"], self.path(s["id"] + ".f") if s["mode"] == "file" else ""),
-                      "table", "entries", "o2f " + " ".join(str(p) for p in s["o2f"])]
-            for r in s["reads"]:
-                ctext.append("%s %d %d" % r)
-            ctext.append("close")
-        rc, clines, cerr = self.run_c("\n".join(ctext) + "\n")
-        if rc != 0:
-            self.report(dict(kind="reads", rc=rc, stderr=cerr[-2000:]), "harness crashed while reading (rc=%d)" % rc, no_input=True)
-            return
-        cs = self.sections(clines)
+        cs = self.run_reads_c(specs)
+        specs = [s for s in specs if not s.get("dead")]
         model_max = 140000 if ctx.quick else 400000
         mtext = []
         for s in specs:
